@@ -203,7 +203,7 @@ def run(ctx, rep):
     # than the file means the parity was truncated or replaced)
     from .. import region as RG
     import itertools as _it
-    rep.rule('R-C14-1s', 'parity_size (the size the short-parity interlock of state_sync compares with the used size) never counts bytes the split files do not hold: over recorded sizes x real file sizes it equals the sum of min(recorded, on disk)', 20)
+    rep.rule('R-C14-1s', 'parity_size (the size the short-parity interlock of state_sync compares with the used size) never counts bytes the split files do not hold: over recorded sizes x real file sizes it equals the usable prefix: the sum of min(recorded, on disk) up to and including the first split that is shorter than recorded', 20)
     ps = P.fn('parity_size')
     rep.analysed(ps)
     uses = [c_ for c_ in s.calls('parity_size')]
@@ -231,13 +231,20 @@ def run(ctx, rep):
                 except RG.Unsupported as e:
                     raise AnalysisBroken('cannot interpret parity_size: %s' % e)
                 got = RG.signed(R.mem[(out.reg, 0)], 64)
-                want = sum(min(a_, b_) for a_, b_ in zip(rec, disk))
+                # the parity is usable only up to the first split that is shorter than recorded: every position behind the missing part
+                # maps to a wrong offset, so nothing after it counts (F18: a plain sum let a later split hide the shortfall)
+                want = 0
+                for a_, b_ in zip(rec, disk):
+                    want += min(a_, b_)
+                    if b_ < a_:
+                        break
                 rep.check(got == want, 'R-C14-1s', 'recorded split sizes %s, files on disk %s' % (list(rec), list(disk)), ps.file,
-                          'reports %d bytes' % got if got == want else 'reports %d bytes of parity although the files hold only %d: a truncated or replaced parity file passes the interlock and sync re-extends it with zeros' % (got, want),
+                          'reports %d bytes' % got if got == want else 'reports %d bytes of parity although only the first %d are usable (a split shorter than recorded ends the usable parity): a truncated or replaced parity file passes the interlock and sync re-extends it with zeros' % (got, want),
                           function='parity_size', construct='parity size counts recorded bytes')
 
     short_parity_interlock_rule(P, rep, 'R-C14-1p')
     empty_disk_interlock_rule(P, rep, 'R-C14-1e')
+    interlock_counter_rules(P, rep, 'R-C14-1l', 'R-C14-1c')
     # the is_diff flag turns the zero-size refusal into a report (diff must not abort): it has to travel unchanged from the command
     # to the place that tests it -- in every call between functions that both have an `is_diff` parameter the callee's is_diff is
     # the caller's is_diff
@@ -448,3 +455,51 @@ def empty_disk_interlock_rule(P, rep, rid):
             bad = 'scan counters %s: sync %s, expected %s%s' % ([{k_: v_ for k_, v_ in d.items() if v_} for d in disks], outcome, want,
                   ' -- every recorded file of the disk is gone or rewritten, yet the array state and parity are updated without --force-empty' if want == 'refused' else '')
     rep.check(bad is None, rid, 'state_diffscan refuses exactly when all recorded files of a disk are missing or rewritten', f.blocks[h][0].loc(), '%d evaluations' % n if bad is None else bad, function='state_diffscan', construct='empty-disk predicate')
+
+
+def interlock_counter_rules(P, rep, rid_l, rid_c):
+    """the empty-disk interlock reads per-disk counters filled by the scan.  Two necessary conditions for it to mean "all files
+    previously known on the disk are missing or rewritten":
+    (l) the counters that disarm it (equal / move / restore: "a known file is still there") count regular files only -- a symbolic
+        link or hardlink that is still in place says nothing about the files the parity protects;
+    (c) a known file found rewritten in place (same path, different stamp: the record is removed) is counted as changed (or removed)
+        on every path, also when the new content is recognised as a copy of a file of another disk."""
+    from ..grammar import qual_member
+    rep.rule(rid_l, 'the scan counters that disarm the empty-disk interlock (count_equal, count_move, count_restore) are incremented only for regular files (in scan_file)', 1)
+    offenders = []
+    nsite = 0
+    for f in P.defined():
+        if not (f.file or '').endswith('scan.c'):
+            continue
+        for i in f.all_insts():
+            if i.op != 'store':
+                continue
+            q = qual_member(f, i.ops[1]) if f.inst_of(i.ops[1]) is not None else None
+            if q in ('snapraid_scan.count_equal', 'snapraid_scan.count_move', 'snapraid_scan.count_restore'):
+                v = f.inst_of(i.ops[0])
+                if v is not None and v.op == 'add' and f.const_of(v.ops[1]) == 1:      # ++counter (the totals of the summary add another counter)
+                    nsite += 1
+                    if base(f.name) != 'scan_file':
+                        offenders.append((f, i, q))
+    if nsite < 3:
+        raise AnalysisBroken('scan counters not recognised (%d increment sites)' % nsite)
+    if not offenders:
+        rep.check(True, rid_l, 'kept-file counters are incremented in scan_file only', 'cmdline/scan.c', '%d increment sites' % nsite, function='scan_file', construct='kept counters')
+    for f, i, q in offenders:
+        rep.check(False, rid_l, '%s: ++%s' % (base(f.name), q.split('.')[1]), i.loc(),
+                  '%s counts an unchanged link as a kept file: one symbolic link or hardlink left on the disk disarms the "all files missing or rewritten" interlock' % base(f.name),
+                  function=base(f.name), construct='++%s for a link' % q.split('.')[1])
+    rep.rule(rid_c, 'scan_file: a recorded file found rewritten in place (its record is removed) is counted in count_change or count_remove on every path to the return', 1)
+    f = P.fn('scan_file')
+    rep.analysed(f)
+    rm = list(f.calls('scan_file_remove'))
+    cnt = [i for i in f.all_insts() if i.op == 'store' and f.inst_of(i.ops[1]) is not None and qual_member(f, i.ops[1]) in ('snapraid_scan.count_change', 'snapraid_scan.count_remove')
+           and f.inst_of(i.ops[0]) is not None and f.inst_of(i.ops[0]).op == 'add']
+    if not rm or not cnt:
+        raise AnalysisBroken('scan_file: removal of the rewritten record / change counters not found')
+    for c in rm:
+        r_ = f.reach([c], stop={x.id for x in cnt})
+        esc = [r for r in f.returns() if r.id in r_]
+        rep.check(not esc, rid_c, 'scan_file: the record removed at line %s is counted as changed' % c.line, c.loc(),
+                  'counted on every path' if not esc else 'a path from the removal of the rewritten record reaches the return without ++count_change (the copy detection reports the new content as a copy instead): a disk whose files were all overwritten by copies of another disk (wrong file-system mounted) passes the interlock',
+                  function='scan_file', construct='rewritten file not counted')
